@@ -2765,9 +2765,10 @@ class RockRidge:
         sl_rec_header_len = RRSLRecord.header_length()
 
         thislen = RRSLRecord.length([b'a'])
-        if curr_dr_len + thislen < ALLOWED_DR_SIZE:
+        if self.dr_entries.ce_record is None or curr_dr_len + thislen < ALLOWED_DR_SIZE:
             # There is enough room in the directory record for at least
-            # part of the symlink
+            # part of the symlink; without a continuation entry all of it has
+            # to go there (the check above made sure that it fits).
             curr_comp_area_length = ALLOWED_DR_SIZE - curr_dr_len - sl_rec_header_len
             self.dr_entries.sl_records.append(curr_sl)
             curr_dr_len += sl_rec_header_len
